@@ -1,0 +1,29 @@
+//go:build verif
+
+package time
+
+// Contracts for govc (contract-based deductive verification; see /verif/DESIGN.md).
+// This file holds only comments and is compiled only with -tags verif.
+
+// C07 safety sweep: every string is admitted; the contracts carry only what the bounds proofs need.
+// Loop ordinals as the tool numbers them: loop 0 = the unit scanner (`for i < l`), loop 1 = the repetition scanner (`for {`).
+
+//@ func ParseISO8601Duration
+//@   tags C07
+//@   modifies nothing
+//@   ensures [C07.iso.short] len(from) < 2 ==> err != nil
+//@   ensures [C07.iso.norep] (err == nil && from[0] != 'R') ==> repetition == -1
+//@   loop 0 invariant 1 <= start && start <= i && i <= l && l == len(from)
+//@   loop 0 decreases l - i
+//@   loop 1 invariant 0 <= i && i < l && l == len(from)
+//@   loop 1 decreases l - i
+
+//@ func ParseDuration
+//@   tags C07
+//@   modifies nothing
+//@   ensures [C07.dur.err] result5 != nil ==> (result == 0 && result1 == 0 && result2 == 0 && result3 == 0 && result4 == 0)
+//@   ensures [C07.dur.short] len(from) < 2 ==> (result5 != nil || (durOK(from) && result3 == durVal(from) && result4 == -1))
+
+//@ func ParseTime
+//@   tags C07
+//@   modifies nothing
